@@ -27,6 +27,7 @@ RULE = (
     "items (same objects), return value and exception type; the returned object is an async iterator "
     "(__aiter__+__anext__) or awaitable (__await__) before it is used. Non-trivial: >=1 non-list iterable or "
     "non-def callable and (>=1 item or an error); distinct = distinct (scenario incl. flavours) by 64-bit hash."
+    " Extensions of rounds 9-12: a callable prepared to fail at one of its first calls, optionally together with a source prepared to fail (same flavour in both runs)."
 )
 COMPONENTS = COMPONENTS_BASE
 ASSUMPTIONS = [
